@@ -1,4 +1,7 @@
 pub mod c01;
+pub mod c06;
+pub mod c13;
+pub mod c14;
 pub mod selftest;
 
 use crate::ctx::Ctx;
@@ -7,6 +10,9 @@ pub fn dispatch(ctx: &mut Ctx) -> bool {
     match ctx.prop.as_str() {
         "selftest" => selftest::run(ctx),
         "C01" => c01::run(ctx),
+        "C06" => c06::run(ctx),
+        "C13" => c13::run(ctx),
+        "C14" => c14::run(ctx),
         _ => return false,
     }
     true
